@@ -170,9 +170,9 @@ func Registry() []*Spec {
 		Note: "the C04 tree shapes (symbolic bool / int64 / short string leaves and keys) through sen.Writer under Sort x {tight, Indent 2, Tab} and back through sen.Parser"})
 	// ---- C17: streaming Match equals parse-then-locate
 	add(Spec{Property: "C17", Name: "VerifC17_Match", Pkg: "asm",
-		Quick: map[string]int{"NT": 2, "SPLIT": 0, "NT2LOADS": 1}, Thorough: map[string]int{"NT": 2, "SPLIT": 1},
+		Quick: map[string]int{"NT": 2, "SPLIT": 0, "NT2LOADS": 1}, Thorough: map[string]int{"NT": 2, "SPLIT": 1, "NT2LOADS": 3},
 		Covers: []string{"some", "none"}, UnitDepth: 5,
-		Note: "oj.Match, oj.MatchLoad (1-byte reads; thorough: one symbolic split point), sen.Match and sen.MatchLoad (1-byte reads) on 5 concrete document skeletons (depth <= 3) with symbolic digit leaves and 1..NT targets (quick: two targets through oj.Match only) from 15 shapes (child, index, negative index, wildcard, descent, union, two unions in a row, slice, nested, trailing filter @.x > c below a child and below a wildcard) with symbolic indexes in [0,4]: the callback sequence equals the outermost locations of the reference selector on the parsed document, in document order, with equal values"})
+		Note: "oj.Match, oj.MatchLoad (1-byte reads; thorough: one symbolic split point), sen.Match and sen.MatchLoad (1-byte reads) on 5 concrete document skeletons (depth <= 3) with symbolic digit leaves and 1..NT targets (two targets: quick through oj.Match only, thorough through oj.Match, oj.MatchLoad with 1-byte reads and sen.Match) from 15 shapes (child, index, negative index, wildcard, descent, union, two unions in a row, slice, nested, trailing filter @.x > c below a child and below a wildcard) with symbolic indexes in [0,4]: the callback sequence equals the outermost locations of the reference selector on the parsed document, in document order, with equal values"})
 	// ---- C18: generic / simple conversions
 	add(Spec{Property: "C18", Name: "VerifC18_Convert", Pkg: "asm",
 		Quick: map[string]int{}, Thorough: map[string]int{},
